@@ -8,18 +8,18 @@ VERIF = os.path.dirname(os.path.dirname(os.path.abspath(__file__)))
 MC = "model_checking"
 CLAIMS = {
     # id: (category, technique, text, note, design_ref)
-    "C01": (MC, "TLC-enumerated cases replayed on libvata + TLA+ trace validation against TA!Incl; TLC model check of the antichain algorithms over all schedules",
+    "C01": (MC, "TLC-enumerated + random + killer cases replayed on libvata (API and vata CLI) and judged by TLA+ trace validation against TA!Incl; oracle-free agreement arm (millions of pairs, disagreements judged by TLC); TLC model check of the upward (all work-list orders) and downward antichain algorithms; oracle self-check against naive tree semantics",
             "Every pair of tree automata of the exhaustive small bounds (TLC-enumerated) and seeded random pairs are run through all 8 selections of the real "
             "CheckInclusion under varying presentations; TLC judges every recorded verdict against the bottom-up macro-state fixpoint of spec/TA.tla. "
             "The Layer-2 models of the upward and downward antichain algorithms are model-checked for every work-list order on the same bound.",
             "Trusted: TLC, the Layer-0 oracle (cross-checked in TLC against bounded tree enumeration), the driver's read-back through the public API. "
             "Exhaustive only within the stated bounds; sampled beyond.", "DESIGN.md §4 C01"),
-    "C02": (MC, "TLC-enumerated and random operand pairs replayed on libvata; TLA+ trace validation of result automaton, reported maps and operand snapshots against TA!Union / TA!Prod",
+    "C02": (MC, "TLC-enumerated and random operand pairs replayed on libvata (API and vata CLI); TLA+ trace validation of result automaton, reported maps and operand snapshots against TA!Union / TA!Prod; agreement arm Intersection vs IntersectionBU",
             "Union, UnionDisjointStates, Intersection and IntersectionBU are run on every sampled pair of the exhaustive bound and on random pairs (overlapping numbers, "
             "no / fresh / pre-filled maps); TLC decides language equality with the spec's union/product, that every result state is named by the maps and has the "
             "language of what it stands for, and that operands are unchanged.",
             "Trusted: TLC, Layer-0 oracle, driver read-back. Non-canonical results (state naming) are judged by contract, not by a fixed expected output.", "DESIGN.md §4 C02"),
-    "C03": (MC, "TLC-enumerated and random automata replayed on libvata; TLA+ trace validation against TA!Trim / TopReach / Empty",
+    "C03": (MC, "TLC-enumerated, random and killer automata replayed on libvata (API, ask-twice mode, vata CLI); TLA+ trace validation against TA!Trim / TopReach / Empty; laws arm; TLC model check of both trimmers as work-list machines (all pop orders, mutants refuted)",
             "RemoveUnreachableStates, RemoveUselessStates and IsLangEmpty are run on the single automata of bound B1' and random ones; TLC decides language "
             "preservation, the reachability / usefulness postconditions and the emptiness verdict.", "Trusted: TLC, Layer-0 oracle, driver read-back.", "DESIGN.md §4 C03"),
     "C04": (MC, "TLC-enumerated and random automata under random dense numberings replayed on libvata; relations compared entry by entry with the greatest fixpoints TA!DownSim / TA!UpSim",
